@@ -50,7 +50,7 @@ static unsigned long pick_mask(void)
 /* Observe a hwloc bitmap into a vset through isset + tail probes only. */
 static void observe(hwloc_const_bitmap_t b, vset *o)
 {
-  for (unsigned i = 0; i < VS_W; i++) o->bit[i] = (unsigned char)(hwloc_bitmap_isset(b, i) != 0);
+  vs_zero(o); for (unsigned i = 0; i < VS_W; i++) if (hwloc_bitmap_isset(b, i)) vs_set(o, i);
   o->tail = hwloc_bitmap_isset(b, VS_W + 997) != 0;
 }
 
@@ -86,12 +86,12 @@ static void build_twin(int s)
   case 4: t = hwloc_bitmap_alloc(); hwloc_bitmap_taskset_asprintf(&str, B[s]); if (hwloc_bitmap_taskset_sscanf(t, str)) hv_viol("twin.taskset_sscanf", "taskset_sscanf rejected own output '%s'", str); break;
   case 5: /* from the model: set every member */
     t = hwloc_bitmap_alloc();
-    for (unsigned i = 0; i < VS_W; i++) if (m->bit[i]) hwloc_bitmap_set(t, i);
+    for (unsigned i = 0; i < VS_W; i++) if (VS_BIT(m, i)) hwloc_bitmap_set(t, i);
     if (m->tail) hwloc_bitmap_set_range(t, VS_W, -1);
     break;
   case 6: /* from the model: fill then clear every non-member */
     t = hwloc_bitmap_alloc_full();
-    for (unsigned i = 0; i < VS_W; i++) if (!m->bit[i]) hwloc_bitmap_clr(t, i);
+    for (unsigned i = 0; i < VS_W; i++) if (!VS_BIT(m, i)) hwloc_bitmap_clr(t, i);
     if (!m->tail) hwloc_bitmap_clr_range(t, VS_W, -1);
     break;
   default: { /* enlarge the encoding with a far bit, then remove it again */
